@@ -272,7 +272,7 @@ LEMMAS = {
                symbolic='mod, imm32, r0-r7, f/e/a, scratchpad, E masks, FPCR, every other register, literal pool content, program index, last-writer table and reg_changed_offset',
                stubs=['FP ops := uninterpreted functions of (rounding mode, operands), shared with the spec', 'randomx_reciprocal_fast := uninterpreted rcp (R1/R2)', 'A64 semantics: engine/a64sem.py (Arm ARM transcription; decoding cross-checked against llvm-objdump, semantics NOT validated on hardware)',
                       'frame facts assumed: x2 = scratchpad, v29/v30/v31 = and-mask/E or-mask/scale mask, x8 = rbit(FPCR), literal registers loaded from the literal pool (N0 checks the loads)'],
-               outside='the hand-written main loop, dataset read/prefetch, FE mixing, AES, SuperscalarHash code; IEEE arithmetic; FPCR bits other than RMode'),
+               outside='IEEE arithmetic; FPCR bits other than RMode (the main loop is N3, the generated dataset code N5/N6)'),
     'N0': dict(jobs=lambda ctx: ['runtime'], run=run_N0, units=[], a64=True, functions=['engine/a64sem.py decoder', 'jit_compiler_a64_static.S prologue literal loads'],
                doc='A64 decoder cross-check: every instruction of the assembled runtime inside the modelled subset reads the same in the model and in llvm-objdump; the prologue loads x0/x11/x21-x30 and v0-v15 from the literal slots the emitter fills',
                bound='the whole assembled runtime', symbolic='literal pool content', stubs=[]),
@@ -392,4 +392,4 @@ LEMMAS['N5'] = dict(jobs=jobs_N5, run=run_N5, units=['a64'], a64=True,
     functions=['JitCompilerA64::generateSuperscalarHash', 'emitAddImmediate', 'emitMovImmediate', 'assembled templates: randomx_calc_dataset_item_aarch64 (prologue, prefetch, mix, store_result)'],
     doc='the dataset-item function the ARM64 back-end generates (templates of the runtime + code emitted for a SuperscalarHash program list + literal pools), executed under the A64 model for a symbolic cache and item number == specification 7.3 with the instruction semantics of 6.1; reads exactly one cache line per program at 64*(cacheIndex mod lines), writes the 64 output bytes, restores registers (x20 is scratch) and sp',
     bound='(a) program lists of 8 programs x 2 (quick) / 4 instructions drawn from all 14 kinds (4 / 16 variants), reciprocals symbolic, immediates and shifts concrete representatives of every materialisation class; (b) every kind alone in one program with an unconstrained immediate (1 / 8 register choices); any cache content and item number', symbolic='cache (cut points), item number, immediates, reciprocals, entry registers, stack content',
-    stubs=['cache words := fresh symbols at recorded addresses', 'A64 semantics: engine/a64sem.py'], outside='randomx_init_dataset_aarch64 loop (3 instructions around the call)')
+    stubs=['cache words := fresh symbols at recorded addresses', 'A64 semantics: engine/a64sem.py'], outside='- (the loop around the call is N6)')
